@@ -28,6 +28,7 @@ func init() {
 }
 
 func runC17(c *an.Ctx) {
+	r7OneApplicationPerToken(c, "R1")
 	r7MacroString(c, "R5")
 	// ---- R1 whole list processed
 	for _, name := range []string{"directiveSecRuleUpdateTargetByID", "directiveSecRuleUpdateActionByID", "directiveSecRuleRemoveByID"} {
